@@ -585,7 +585,8 @@ func allStacks() []gstate {
 func isParked(status string) bool {
 	switch status {
 	case "chan receive", "chan send", "select", "semacquire", "IO wait",
-		"sync.WaitGroup.Wait", "sync.Cond.Wait", "chan receive (nil chan)", "chan send (nil chan)", "select (no cases)":
+		"sync.WaitGroup.Wait", "sync.Cond.Wait", "chan receive (nil chan)", "chan send (nil chan)", "select (no cases)",
+		"sync.Mutex.Lock", "sync.RWMutex.Lock", "sync.RWMutex.RLock": // only counted when the lock is taken by connection code (parkedInConn)
 		return true
 	}
 	return false
@@ -1195,22 +1196,46 @@ waitEOF:
 	// late sends: must be refused
 	for k := 0; k < cfg.LateSend && !sim.dropped; k++ {
 		code := 0
-		p, _ := Catch(func() {
-			switch sim.conn.SendPacket(mkPacket(PktSpec{900000 + k, 8})) {
-			case nil:
-				code = 0
-			case qnet.ErrConnIsClosing:
-				code = 1
-			case qnet.ErrConnOutboundOverflow:
-				code = 2
-			default:
-				code = 4
+		ret := make(chan struct{})
+		go func() {
+			defer close(ret)
+			p, _ := Catch(func() {
+				switch sim.conn.SendPacket(mkPacket(PktSpec{900000 + k, 8})) {
+				case nil:
+					code = 0
+				case qnet.ErrConnIsClosing:
+					code = 1
+				case qnet.ErrConnOutboundOverflow:
+					code = 2
+				default:
+					code = 4
+				}
+			})
+			if p {
+				code = 3
 			}
-		})
-		if p {
-			code = 3
+		}()
+		select {
+		case <-ret:
+		case <-time.After(dl(3 * time.Second)):
+			// SendPacket has not returned: a finding only if its goroutine is parked inside it
+			code = 6 // inconclusive
+			for _, g := range allStacks() {
+				if strings.Contains(g.text, "(*TcpConn).SendPacket") && isParked(g.status) && parkedInConn(g.text) {
+					code = 5 // blocked
+					sim.mu.Lock()
+					sim.stuckWhat = "stuck: SendPacket:" + g.status
+					sim.mu.Unlock()
+				}
+			}
+			if code == 6 {
+				sim.inconclusive("a late SendPacket did not return within 3s")
+			}
 		}
 		sim.late = append(sim.late, code)
+		if code >= 5 {
+			break
+		}
 	}
 	return sim.observed(enc, oracle, inOracle), sim
 }
